@@ -32,10 +32,13 @@ AllCmds == UNION {{<<f, c>> : c \in Cmds(f)} : f \in Families}
 \* validation (a file whose data cannot be read inside an openable archive, a WDT with invalid flags, ...);
 \* the damaged classes are judged by the library first (verdict `lib`): only damage the library itself
 \* rejects creates an obligation.
-\* damage BY REGION of a container whose header points at tables (MPQ: hash table, block table): the file is cut strictly
-\* inside one table, every region stored before it intact.  (The positional classes above never leave one table whole and
-\* the next one unreadable.)  As with every damage class the library's verdict on the same bytes decides.
-RegionDamage == {"cut_hash", "cut_block"}
+\* damage BY REGION of a container whose header points at tables (MPQ: hash table, block table): the file is cut inside
+\* one table, every region stored before it intact.  (The positional classes above never leave one table whole and the
+\* next one unreadable.)  Two boundary classes per table, because a reader may shrink a table to the entries that are there:
+\*   cut_T0  no whole entry of table T survives (cut at the table's start .. inside its first entry): T is unreadable
+\*   cut_T   at least one whole entry survives and at least one is lost
+\* As with every damage class the library's verdict on the same bytes decides.
+RegionDamage == {"cut_hash0", "cut_hash", "cut_block0", "cut_block"}
 Damaged == {"empty", "trunc_head", "trunc_mid", "trunc_tail", "corrupt_magic", "corrupt_size", "corrupt_rand"} \cup RegionDamage
 HeadDamage == {"empty", "trunc_head", "corrupt_magic"}          \* nothing can be read: no sub-command can do its job
 \* "flagviol": parses and passes the default validation, but violates the rule an optional validate flag enforces
